@@ -723,6 +723,16 @@ def oracle_bfd(c, o):
             return 'bfd::Message::decode accepted a packet failing the RFC 5880 reception checks'
     return None
 
+def _unlimit_stack():
+    """coqc evaluates 65535-byte frames with deep non-tail recursion (vm_compute on the native
+    stack): lift the soft stack limit for the coqc children"""
+    try:
+        import resource
+        hard = resource.getrlimit(resource.RLIMIT_STACK)[1]
+        resource.setrlimit(resource.RLIMIT_STACK, (hard, hard))
+    except Exception:
+        pass
+
 class Prop:
     pid = 'C03'
     props_file = 'Props/C03.v'
@@ -796,13 +806,14 @@ class Prop:
     def gen_cases(self, rng, tier):
         q = tier == 'quick'
         from gen import c03_enum
-        return c03_enum.enum_cases() + gen_bfd(rng, 300 if q else 3000) + gen_rtr(rng, 600 if q else 6000) + gen_bgp(rng, 2500 if q else 25000, tier) + gen_fuzz(rng, 1500 if q else 30000) + gen_fuzz_seeded(rng, 2500 if q else 60000) + gen_fuzz_sweep(rng, tier)
+        return c03_enum.enum_cases() + gen_bfd(rng, 300 if q else 3000) + gen_rtr(rng, 600 if q else 6000) + gen_bgp(rng, 2500 if q else 15000, tier) + gen_fuzz(rng, 1500 if q else 8000) + gen_fuzz_seeded(rng, 2500 if q else 15000) + gen_fuzz_sweep(rng, tier)
 
     # ---- running
     def run_impl(self, cases, tier):
         return hxpacket.run_both('C03', [self.case_to_val(c) for c in cases])
 
     def run_model(self, cases, tier):
+        _unlimit_stack()
         pre = ('From RB Require Import Base.Val Base.Bytes Model.Bfd Model.Stream Model.Rtr Model.Wire Model.WireNlri '
                'Model.WireUpdate Model.WireMsg.\nOpen Scope N_scope.')
         idx = [i for i, c in enumerate(cases) if c['k'] != 'fuzz']
